@@ -191,13 +191,19 @@ def refusal(ctx) -> None:
 
 def default_lower(ctx) -> None:
     prog = ctx.prog
-    fn = prog.func('forml.runtime._agent:Runner.train')
-    refs = [n for n in core.walk_local(fn.node) if isinstance(n, ast.Attribute) and (core.dotted(n) or '').endswith('training.ordinal')]
-    ctx.floor('C10.default-lower', len(refs), 1)
-    for ref in refs:
-        gs = cfg.guards(ref, fn.node)
-        ok_guard = any((pol and core.src(t) == 'lower is None') or ((not pol) and core.src(t) == 'lower is not None') for t, pol in gs)
-        ctx.check(ok_guard, 'C10.default-lower', fn, 'tag ordinal substitutes the lower bound only when `lower is None`', ref, key='default-lower')
+    prog.func('forml.runtime._agent:Runner.train')
+    n = 0
+    for fn in prog.functions([m for m in prog.modules if m.startswith(('forml.runtime', 'forml.io._input', 'forml.provider.runner'))]):
+        for ref in [n for n in core.walk_local(fn.node) if isinstance(n, ast.Attribute) and (core.dotted(n) or '').endswith('training.ordinal')]:
+            n += 1
+            if fn.ref != 'forml.runtime._agent:Runner.train':
+                ctx.fail('C10.default-lower', fn, 'the last training ordinal is substituted for a missing lower bound outside the training driver: in apply/evaluation modes a missing bound must leave that side open', ref)
+                continue
+            gs = cfg.cguards(ref, fn.node, siblings=True)
+            ok_guard = ('lower is None', True) in gs or ('lower is not None', False) in gs
+            ctx.check(ok_guard, 'C10.default-lower', fn, 'tag ordinal substitutes the lower bound only when `lower is None`', ref, key='default-lower')
+    if n == 0:
+        ctx.ok('C10.default-lower', 'forml.runtime._agent:Runner.train', 'no implicit lower bound is derived from the training tag (every missing bound stays open)')
 
 
 def run(ctx) -> None:
@@ -219,4 +225,6 @@ def run(ctx) -> None:
     ctx.floor('R-PASSTHROUGH', k, 5)
     refusal(ctx)
     default_lower(ctx)
+    shared.r_rawcmp(ctx, tenv, prog.functions())
+    ctx.ok('R-RAWCMP', 'forml', 'no ordering comparison / min / max / sorted over a raw Optional[dsl.Native] bound anywhere in forml/')
     shared.argname_scope(ctx, ('forml.io._input', 'forml.runtime._agent', 'forml.runtime._pseudo', 'forml.project._component'), floor=2)
